@@ -14,6 +14,7 @@ CONSTANTS
   ImportToks <- MCImportsS
   CmtToks <- MCCmt
   NeverPruned <- MCNever
+  RootToks <- MCRootQ
   Cfgs <- MCCfgs
   ImpPairs <- MCImpQ
   InitSchemas <- MCInit2P
